@@ -348,7 +348,7 @@ func cmdCheck(args []string) int {
 	knownPrinted := map[string]bool{}
 	fmap := map[string]Finding{}
 	for _, f := range findings {
-		fmap[f.Name] = f
+		fmap[f.Name+"|"+f.Entry] = f
 	}
 	seenTag = map[string]bool{}
 	for i, vr := range viols {
@@ -364,7 +364,7 @@ func cmdCheck(args []string) int {
 		}
 		viols[i].v.Confirmed = c
 		if strings.HasPrefix(vr.r.mode, "only:") {
-			name := strings.TrimPrefix(vr.r.mode, "only:")
+			name := strings.TrimPrefix(vr.r.mode, "only:") + "|" + vr.r.entry.Func
 			if strings.HasPrefix(c, "confirmed") {
 				if !knownPrinted[name] {
 					knownPrinted[name] = true
